@@ -114,6 +114,7 @@ HEAP_SPECIAL = {
     '$llen': IntArr, '$litem': z3.ArraySort(I, KeyAt),
     '$set': z3.ArraySort(I, ValSet), '$pset': z3.ArraySort(I, PathSet),
     '$path': z3.ArraySort(I, PathSort),     # for objects that store a path (rare)
+    '$ypath': z3.ArraySort(I, z3.ArraySort(I, PathSort)),   # ghost: paths yielded by a generator, by position
 }
 
 
